@@ -21,8 +21,17 @@ import (
 	"golang.org/x/tools/go/ssa"
 )
 
+// RepoDir is the tree under test: always /repo for the registered commands.
+// VERIF_REPO points it at a scratch worktree (used only when trying seeded
+// changes in parallel; evidence of such runs goes wherever VERIF_EVIDENCE says).
+var RepoDir = func() string {
+	if v := os.Getenv("VERIF_REPO"); v != "" {
+		return v
+	}
+	return "/repo"
+}()
+
 const (
-	RepoDir   = "/repo"
 	VerifDir  = "/verif"
 	RepoMod   = "github.com/dcaiafa/lox"
 	VrtImport = RepoMod + "/zz_verif/vrt"
@@ -171,6 +180,7 @@ type Result struct {
 	H        Harness
 	Rep      *symgo.Report
 	Missing  []string // reach ids never hit
+	BudgetCut string  // non-empty: not (completely) run because the time budget was used up
 	Replays  []ReplayResult
 }
 
@@ -203,7 +213,26 @@ func (c *Ctx) RunHarness(prog *symgo.Program, h Harness) (*Result, error) {
 	return c.runEntry(prog, h, fn), nil
 }
 
+// budget is the wall-clock budget of the solver-decided part of a check
+// (VERIF_BUDGET_S; default: none for quick, 45 minutes for thorough). Harnesses
+// run in order of increasing bounds; one that has not started when the budget is
+// used up is skipped, one that is running is stopped. Either is listed in the
+// evidence as outside this run's claim - it is never counted as held.
+func (c *Ctx) budget() time.Duration {
+	if v, err := strconv.Atoi(os.Getenv("VERIF_BUDGET_S")); err == nil && v > 0 {
+		return time.Duration(v) * time.Second
+	}
+	if c.Thorough() {
+		return 45 * time.Minute
+	}
+	return 0
+}
+
 func (c *Ctx) runEntry(prog *symgo.Program, h Harness, fn *ssa.Function) *Result {
+	if b := c.budget(); b > 0 && time.Since(c.Start) > b {
+		rep := &symgo.Report{Name: h.Name, Paths: map[string]int{}, Reached: map[string]int{}, Functions: map[string]bool{}, Stubs: map[string]int{}}
+		return &Result{H: h, Rep: rep, BudgetCut: "not started"}
+	}
 	workers := c.Workers
 	if h.Workers > 0 {
 		workers = h.Workers
@@ -216,8 +245,15 @@ func (c *Ctx) runEntry(prog *symgo.Program, h Harness, fn *ssa.Function) *Result
 	if c.Thorough() {
 		cfg.CrossCheck = "z3-new"
 	}
+	if b := c.budget(); b > 0 {
+		cfg.Deadline = c.Start.Add(b)
+	}
 	rep := symgo.Explore(prog, cfg)
 	res := &Result{H: h, Rep: rep}
+	if rep.DeadlineHit {
+		res.BudgetCut = fmt.Sprintf("stopped after %d paths", rep.Total)
+		return res // counterexamples found so far are still handled; no vacuity verdict on a partial run
+	}
 	for _, id := range h.Reach {
 		if rep.Reached[id] == 0 {
 			res.Missing = append(res.Missing, id)
@@ -377,12 +413,16 @@ func (c *Ctx) ValidateSamples(o *Outcome, items map[string]*GenItem, max int) {
 		s symgo.PathSample
 	}
 	var picks []pick
+	// only the results added since the last call (a check may run several
+	// families, each with its own items)
+	fresh := o.Results[o.validated:]
+	o.validated = len(o.Results)
 	step := 1
-	if len(o.Results) > max && max > 0 {
-		step = len(o.Results) / max
+	if len(fresh) > max && max > 0 {
+		step = len(fresh) / max
 	}
-	for i := 0; i < len(o.Results) && len(picks) < max; i += step {
-		r := o.Results[i]
+	for i := 0; i < len(fresh) && len(picks) < max; i += step {
+		r := fresh[i]
 		// prefer the sample with most decisions
 		best := -1
 		for k, s := range r.Rep.Samples {
@@ -505,6 +545,7 @@ type Evidence struct {
 // Outcome accumulates what a check did.
 type Outcome struct {
 	Results      []*Result
+	validated    int // results already offered to ValidateSamples
 	Violations   []string // VIOLATION lines
 	Known        []string // KNOWN-FINDING lines
 	Inconclusive []string
@@ -528,6 +569,7 @@ func (c *Ctx) Finish(o *Outcome) int {
 	stubs := map[string]int{}
 	var samples []any
 	var harnesses []any
+	var cut []string
 	for _, r := range o.Results {
 		states += r.Rep.Total
 		trans += r.Rep.Decisions
@@ -552,6 +594,10 @@ func (c *Ctx) Finish(o *Outcome) int {
 		}
 		if r.Rep.CrossChecks > 0 {
 			hs["cross_checked_queries"] = r.Rep.CrossChecks
+		}
+		if r.BudgetCut != "" {
+			hs["time_budget"] = r.BudgetCut + " - outside this run's claim"
+			cut = append(cut, r.H.Name+" ("+r.BudgetCut+")")
 		}
 		harnesses = append(harnesses, hs)
 		for i, s := range r.Rep.Samples {
@@ -601,7 +647,11 @@ func (c *Ctx) Finish(o *Outcome) int {
 	ev.Coverage["known_findings_reported"] = o.Known
 	ev.Coverage["violations"] = o.Violations
 	ev.Coverage["inconclusive"] = o.Inconclusive
-	ev.Coverage["exhaustive"] = len(o.Inconclusive) == 0
+	ev.Coverage["exhaustive"] = len(o.Inconclusive) == 0 && len(cut) == 0
+	if b := c.budget(); b > 0 {
+		ev.Coverage["time_budget_s"] = b.Seconds()
+		ev.Coverage["harnesses_not_completed_within_time_budget"] = cut
+	}
 	ev.Coverage["explanation"] = "bounded symbolic execution of the real code (Go SSA of /repo's working tree) with z3 deciding every branch and assertion; exhaustive within the stated bounds only"
 	for k, v := range o.Extra {
 		ev.Coverage[k] = v
@@ -627,6 +677,9 @@ func (c *Ctx) Finish(o *Outcome) int {
 	}
 	for _, i := range o.Inconclusive {
 		fmt.Println("INCONCLUSIVE:", i)
+	}
+	if len(cut) > 0 {
+		fmt.Printf("TIME-BUDGET: %d harnesses not completed within %.0f s (outside this run's claim; listed in the evidence): %s\n", len(cut), c.budget().Seconds(), firstN(strings.Join(cut, ", "), 600))
 	}
 	fmt.Printf("%s %s: paths=%d decisions=%d queries=%d solver=%.1fs wall=%.1fs violations=%d known=%d inconclusive=%d\n",
 		c.Prop, c.Tier, states, trans, queries, solverS, time.Since(c.Start).Seconds(), len(o.Violations), len(o.Known), len(o.Inconclusive))
@@ -698,6 +751,10 @@ func jsonIndent(v any) ([]byte, error) { return json.MarshalIndent(v, "", " ") }
 func evidenceDir() string {
 	if d := os.Getenv("VERIF_EVIDENCE"); d != "" {
 		return d
+	}
+	if os.Getenv("VERIF_REPO") != "" {
+		// never let a run against a scratch tree overwrite /repo's evidence
+		return filepath.Join(os.TempDir(), "verif-scratch-evidence")
 	}
 	return filepath.Join(VerifDir, "evidence")
 }
